@@ -215,6 +215,14 @@ Refreshed(s) ==
     /\ Derived
     /\ History("Refreshed", System, {s}, FALSE, sysReq)
 
+\* a refresh of s that is undone after link-snap (a later task of the change failed): the request had reset the gating
+\* of s, but the snap was not refreshed -- lastRefresh must not move (undoLinkSnap restores last-refresh-time)
+FailedRefresh(s) ==
+    /\ hold' = PruneOf(hold, {s})
+    /\ UNCHANGED <<now, lastRefresh>>
+    /\ Derived
+    /\ History("Refreshed", System, {s}, FALSE, sysReq)
+
 PruneCandidates(C) ==
     /\ hold' \in PruneGatingOutcomes(hold, C)
     /\ UNCHANGED <<now, lastRefresh>>
@@ -232,7 +240,7 @@ AHold        == Go /\ \E g \in Gaters, S \in HoldSets : Hold(g, S)
 AHoldFor     == Go /\ \E g \in Gaters, S \in HoldSets, d \in ExplicitDurs : HoldFor(g, S, d)
 ASystemHold  == Go /\ \E S \in HoldSets, d \in SysDurs, lvl \in Levels : SystemHold(S, d, lvl)
 AProceed     == Go /\ \E g \in Gaters \cup {System}, S \in HoldSets \cup {{}} : Proceed(g, S)
-ARefreshed   == Go /\ \E s \in Snaps : Refreshed(s)
+ARefreshed   == Go /\ \E s \in Snaps : (Refreshed(s) \/ FailedRefresh(s))
 APrune       == Go /\ \E C \in HoldSets \cup {{}} : PruneCandidates(C)
 ATick        == Go /\ \E d \in Ticks : Tick(d)
 
